@@ -50,6 +50,41 @@ static int parse_list(const char *raw, char **dest)
 	}
 	return n;
 }
+/*
+ * Value text of a configuration element, read the way the library itself reads
+ * text (mpt_convertable_data: character vector first, then 's'); copied up to
+ * the first NUL.  Returns null when the element has no value.
+ */
+#ifdef __cplusplus
+typedef mpt::convertable drv_convertable;
+# define DRV_CONV_DATA mpt::mpt_convertable_data
+#else
+typedef MPT_INTERFACE(convertable) drv_convertable;
+# define DRV_CONV_DATA mpt_convertable_data
+#endif
+struct grab {
+	char *text;     /* malloc'd copy or null */
+	int found;
+};
+static int grab_text(drv_convertable *val, struct grab *g)
+{
+	const char *d;
+	size_t len = 0, n;
+	g->text = 0;
+	g->found = 0;
+	if (!val) return -1;
+	if (!(d = DRV_CONV_DATA(val, &len))) {
+		if (len) return -2;
+		d = "";
+	}
+	for (n = 0; n < len && d[n]; n++) { }
+	g->text = (char *) malloc(n + 1);
+	memcpy(g->text, d, n);
+	g->text[n] = 0;
+	g->found = 1;
+	return 0;
+}
+
 /* a value: its bytes, or [-1] when absent */
 static void j_item_val(const char *s)
 {
